@@ -625,6 +625,86 @@ pub fn sig_class(t: &Ty) -> String {
     format!("{}{{{}}}", head, tags.into_iter().collect::<Vec<_>>().join(","))
 }
 
+/// Root-cause oriented class for signatures: the set of structural features of a (minimised) type,
+/// independent of how the failing construct is embedded and of unrelated scalar siblings:
+/// non-final aggregates, optionals, collections (of aggregates / of primitives), 8/16-byte alignment,
+/// strings only when nothing else is there, union specials.
+pub fn root_class(t: &Ty) -> String {
+    let mut tags = BTreeSet::new();
+    collect_tags(t, &mut tags, true);
+    tags.insert(ty_tag(t));
+    let mut out: BTreeSet<String> = BTreeSet::new();
+    fn norm(tag: &str, out: &mut BTreeSet<String>) {
+        let inner = |t: &str, pre: &str| -> Option<String> {
+            t.strip_prefix(pre).and_then(|x| x.strip_suffix('>')).map(|x| x.to_string())
+        };
+        if let Some(x) = inner(tag, "key<") {
+            return norm(&x, out);
+        }
+        if let Some(x) = inner(tag, "opt<") {
+            out.insert("opt".into());
+            return norm(&x, out);
+        }
+        if let Some(x) = inner(tag, "case<") {
+            if x == "none" {
+                out.insert("case<none>".into());
+                return;
+            }
+            return norm(&x, out);
+        }
+        if tag == "disc<int>" {
+            return;
+        }
+        for (pre, name) in [("seq<", "seq"), ("arr<", "arr")] {
+            if let Some(x) = inner(tag, pre) {
+                if x.starts_with("struct:") || x.starts_with("union:") {
+                    out.insert(format!("coll<{}>", x));
+                } else if x == "prim8" || x == "prim16" {
+                    out.insert(format!("{}<prim>", name));
+                    out.insert("align8".into());
+                } else {
+                    out.insert(format!("{}<{}>", name, x));
+                }
+                return;
+            }
+        }
+        match tag {
+            "prim8" | "prim16" => {
+                out.insert("align8".into());
+            }
+            "struct:final" | "union:final" | "prim" | "str" | "wstr" | "char8" => {
+                out.insert(format!("~{}", tag));
+            }
+            other => {
+                out.insert(other.to_string());
+            }
+        }
+    }
+    for tag in &tags {
+        norm(tag, &mut out);
+    }
+    // "~" tags are kept only when nothing more specific is present
+    let specific: Vec<String> = out.iter().filter(|x| !x.starts_with('~')).cloned().collect();
+    if specific.is_empty() {
+        let weak: Vec<String> = out
+            .iter()
+            .filter(|x| *x != "~struct:final" && *x != "~prim")
+            .map(|x| x[1..].to_string())
+            .collect();
+        if weak.is_empty() { "plain".into() } else { weak.join(",") }
+    } else {
+        let mut v = specific;
+        if out.contains("~union:final") && !v.iter().any(|x| x.contains("union:")) {
+            v.push("union:final".into());
+        }
+        if out.contains("~wstr") {
+            v.push("wstr".into());
+        }
+        v.sort();
+        v.join(",")
+    }
+}
+
 /// Value-dependent features that belong into a signature (a failure that needs them is a different
 /// root cause from one that does not).
 pub fn value_tags(t: &Ty, v: &Val, out: &mut BTreeSet<&'static str>) {
